@@ -158,4 +158,9 @@ theorem readLinesSt_pending (c : Nat) (sched : Nat → Nat) (hc : 1 ≤ c) (hs :
 theorem cyclic_admissible (l : List Nat) : Admissible (cyclic l) := fun k => by
   unfold cyclic; omega
 
+theorem chainSched_admissible (sched : Nat → Nat) (hs : Admissible sched) : Admissible (chainSched sched) := fun k => by
+  unfold chainSched; split
+  · exact Nat.le_refl 1
+  · exact hs k
+
 end RbV.BufLines
